@@ -13,22 +13,26 @@ pub fn insert_keyword_statement_terminators(input: Vec<Token>, _file_id: &FileId
 
     let mut in_end_statement = false;
     for tok in input {
-        if !in_end_statement && tok.token_type == TokenType::EndIf {
+        if in_end_statement {
+            match tok.token_type {
+                // The statement is already terminated
+                TokenType::Semicolon => in_end_statement = false,
+                TokenType::Comment | TokenType::Whitespace | TokenType::Newline => {}
+                _ => {
+                    // TODO remove the span and line/col
+                    output.push(Token {
+                        token_type: TokenType::Semicolon,
+                        span: tok.span.clone(),
+                        line: tok.line,
+                        col: tok.col,
+                        text: "".to_owned(),
+                    });
+                    in_end_statement = false;
+                }
+            }
+        }
+        if tok.token_type == TokenType::EndIf {
             in_end_statement = true;
-        } else if in_end_statement
-            && tok.token_type != TokenType::Semicolon
-            && tok.token_type != TokenType::Comment
-            && tok.token_type != TokenType::Whitespace
-        {
-            // TODO remove the span and line/col
-            output.push(Token {
-                token_type: TokenType::Semicolon,
-                span: tok.span.clone(),
-                line: tok.line,
-                col: tok.col,
-                text: "".to_owned(),
-            });
-            in_end_statement = false;
         }
 
         output.push(tok);
